@@ -154,6 +154,8 @@ def run_path(I: Interp, finfo: FuncInfo, con: Contract):
     st.old_stack.append(st.entry_heap)
     for label, e in con.requires:
         st.assume(spec_bool(I, e, sf))
+    for label, e in con.axioms:
+        st.assume(spec_bool(I, e, sf))
     for nm in con.invariants:
         st.assume(invariant_formula(I, nm, sf))
     st.old_stack.pop()
